@@ -1,5 +1,8 @@
 import OtelVerif.Lemmas.C08
 import OtelVerif.Lemmas.C08Json
+import OtelVerif.Lemmas.C08Dec
+import OtelVerif.Lemmas.C08Mig
+import OtelVerif.Lemmas.C08Txt
 import OtelVerif.Gen.OtlpSchema
 /-!
 # C08 — OTLP protobuf and JSON codecs are lossless, consistent and total
@@ -19,7 +22,7 @@ abbrev otlpD : List Val := defaults otlp
 set_option maxRecDepth 100000 in
 /-- distinct legal field numbers per message, admissible (type, cardinality) pairs, one-of alternatives found by
 their number, and `defaults` is the fixed point of "`&T{}` with every `nullable=false` message filled in". -/
-theorem C08_schema_wf : WF otlp otlpD = true := by decide
+theorem C08_schema_wf : WF otlp otlpD = true := by decide +kernel
 
 /-! ## size -/
 
@@ -104,7 +107,7 @@ set_option maxRecDepth 100000 in
 theorem anyValue_shape : ∃ g alts a, otlp.slots anyValueIdx = [Slot.oneof g alts] ∧ findAlt alts 7 = some a ∧ a.ty = .bytes := by
   have h : (match otlp.slots anyValueIdx with
       | [Slot.oneof _ alts] => (match findAlt alts 7 with | some a => a.ty == .bytes | none => false)
-      | _ => false) = true := by decide
+      | _ => false) = true := by decide +kernel
   split at h
   · next g alts hs =>
     split at h
@@ -131,7 +134,7 @@ theorem C08_pb_roundtrip_full_fails : ¬ C08_pb_roundtrip_full := by
     simp [conf, ha, hty]
   have := h anyValueIdx nilBytesValue hshape (by rw [nilBytes_encodes_empty]; decide)
   rw [nilBytes_encodes_empty, decode, decMsg_nil] at this
-  have hd : otlpD.getD anyValueIdx .nil = emptyValue := by decide
+  have hd : otlpD.getD anyValueIdx .nil = emptyValue := by decide +kernel
   rw [hd] at this
   exact absurd (Option.some.inj this) (by decide)
 
@@ -153,7 +156,7 @@ The only fields the JSON readers do not know are the three deprecated scope list
 `event_name`, `pmetric` for `zero_threshold`) makes this theorem fail to check. -/
 theorem C08_json_cases_cover :
     uncovered otlp = [("logs.ResourceLogs", "DeprecatedScopeLogs"), ("metrics.ResourceMetrics", "DeprecatedScopeMetrics"),
-      ("trace.ResourceSpans", "DeprecatedScopeSpans")] := by decide
+      ("trace.ResourceSpans", "DeprecatedScopeSpans")] := by decide +kernel
 
 theorem parseInt_dec (T : Txt) (h : DecLaws T) (signed : Bool) (w n : Nat)
     (hn : n < (if signed then 2 ^ (w - 1) else 2 ^ w)) : parseInt T signed w (T.dec n) = some n := by
@@ -189,7 +192,7 @@ set_option maxRecDepth 100000 in
 /-- non-vacuity: in the regenerated schema every enum name is found by `find?` at its own value and all values fit -/
 theorem C08_json_enum_names_ok :
     otlp.enums.all (fun en => en.values.all (fun p =>
-      (en.values.find? (fun q => str q.1 == str p.1)).map (·.2) == some p.2 && decide (p.2 < 2 ^ 31))) = true := by decide
+      (en.values.find? (fun q => str q.1 == str p.1)).map (·.2) == some p.2 && decide (p.2 < 2 ^ 31))) = true := by decide +kernel
 
 /-- the full JSON statements; proved at field level above, at message level tied by the byte/value-exact differential
 (`jenc`/`jdec` ops) and the harness oracles (`C08/json/roundtrip/*`, `C08/json/pb-inconsistent/*`).  PARTIAL: the
@@ -250,16 +253,184 @@ theorem C08_consistent (S : Schema) (D : List Val) (T : Txt) (hwf : WF S D = tru
       (normV S (.slots (S.slots m)) v = v → encode S m v' = encode S m v) :=
   ⟨_, C08_json_roundtrip S D T hwf hj hT m v hc hcov, rfl, fun h => by rw [h]⟩
 
+/-- one message of the reader-table check -/
+abbrev jwfAt (m : Nat) : Bool := jslotsOkFrom otlp m (otlp.slots m) (otlp.slots m) 0
+
+-- the check is split into chunks of 15 messages so that the kernel evaluations run in parallel
 set_option maxRecDepth 100000 in
+theorem jwf_chunk0 : ∀ k, k < 15 → jwfAt k = true := by decide +kernel
+set_option maxRecDepth 100000 in
+theorem jwf_chunk1 : ∀ k, k < 15 → jwfAt (15 + k) = true := by decide +kernel
+set_option maxRecDepth 100000 in
+theorem jwf_chunk2 : ∀ k, k < 15 → jwfAt (30 + k) = true := by decide +kernel
+set_option maxRecDepth 100000 in
+theorem jwf_chunk3 : ∀ k, k < 15 → jwfAt (45 + k) = true := by decide +kernel
+set_option maxRecDepth 100000 in
+theorem jwf_chunk4 : ∀ k, k < otlp.msgs.length - 60 → jwfAt (60 + k) = true := by decide +kernel
+
 /-- the regenerated reader tables are consistent with the regenerated schema: every field that has a `case` is found by
 its JSON name at its own slot (no two fields of a message share a JSON/proto name) -/
-theorem C08_json_wf : JWF otlp = true := by decide
+theorem C08_json_wf : JWF otlp = true := by
+  simp only [JWF, List.all_eq_true, List.mem_range]
+  intro m hm
+  by_cases h0 : m < 15
+  · exact jwf_chunk0 m h0
+  · by_cases h1 : m < 30
+    · have := jwf_chunk1 (m - 15) (by omega); rwa [show 15 + (m - 15) = m by omega] at this
+    · by_cases h2 : m < 45
+      · have := jwf_chunk2 (m - 30) (by omega); rwa [show 30 + (m - 30) = m by omega] at this
+      · by_cases h3 : m < 60
+        · have := jwf_chunk3 (m - 45) (by omega); rwa [show 45 + (m - 45) = m by omega] at this
+        · have := jwf_chunk4 (m - 60) (by omega); rwa [show 60 + (m - 60) = m by omega] at this
 
 /-- … in particular for OTLP, all signals and wrappers. -/
 theorem C08_json_roundtrip_otlp (T : Txt) (hT : TxtLaws T) (m : Nat) (v : Val) (hc : Conforms otlp m v)
     (hcov : jcov otlp m (.slots (otlp.slots m)) v = true) :
     fromJson otlp T otlpD m (toJson otlp T m v) = some (normV otlp (.slots (otlp.slots m)) v) :=
   C08_json_roundtrip otlp otlpD T C08_schema_wf C08_json_wf hT m v hc hcov
+
+
+/-! ## total: whatever decodes successfully is canonical and re-encodes to a fixed point (no `_partial`) -/
+
+set_option maxRecDepth 100000 in
+/-- no `nullable=false` embedding cycle in the regenerated schema (ranking computed by iteration, checked by `decide`) -/
+theorem C08_schema_rank : reqRankOk otlp (reqRanks otlp) = true := by decide +kernel
+
+/-- **The decoder's result is canonical**, for EVERY byte string: it has the decoder shape (`confD`: every slot filled, scalars
+within their Go width, ids empty-or-n-bytes, one-ofs well formed at any depth), and what the API observes of it (`canon`:
+a stored `-0.0` of a plain double field reads as `+0.0`) is a conforming value. -/
+theorem C08_decode_canonical (S : Schema) (D : List Val) (r : List Nat) (hwf : WF S D = true) (hr : reqRankOk S r = true)
+    (m : Nat) (b : Bytes) (v : Val) (hd : decode S D m b = some v) :
+    confD S (.slots (S.slots m)) v = true ∧ Conforms S m (canon S (.slots (S.slots m)) v) := by
+  have hdef : ∀ sub, confD S (.slots (S.slots sub)) (D.getD sub .nil) = true :=
+    fun sub => defaults_confD S D r (wf_slots hwf) (wf_defaults hwf) hr _ sub (Nat.le_refl _)
+  have h := decMsg_confD S D (wf_slots hwf) hdef b.length b (Nat.le_refl _) m _ v (hdef m) hd
+  exact ⟨h, canon_conf S _ v h⟩
+
+/-- **Fixed point.** For every byte string that decodes, re-encoding the result gives bytes `b1` such that decoding `b1`
+succeeds and yields the canonical value `c`, `c` encodes to `b1` again, and decoding that returns `c` again:
+`decode ∘ encode` is stationary after one step, at value and at byte level.  (`hlen`: Go slice length.) -/
+theorem C08_total_fixpoint (S : Schema) (D : List Val) (r : List Nat) (hwf : WF S D = true) (hr : reqRankOk S r = true)
+    (m : Nat) (b : Bytes) (v : Val) (hd : decode S D m b = some v) (hlen : (encode S m v).length < 2 ^ 63) :
+    encode S m (canon S (.slots (S.slots m)) v) = encode S m v ∧
+    decode S D m (encode S m v) = some (canon S (.slots (S.slots m)) v) ∧
+    decode S D m (encode S m (canon S (.slots (S.slots m)) v)) = some (canon S (.slots (S.slots m)) v) := by
+  obtain ⟨_, hc⟩ := C08_decode_canonical S D r hwf hr m b v hd
+  have he : encode S m (canon S (.slots (S.slots m)) v) = encode S m v := canon_enc S _ v
+  have hrt := C08_pb_roundtrip S D hwf m _ hc (by rw [he]; exact hlen)
+  exact ⟨he, by rw [← he]; exact hrt, hrt⟩
+
+/-- … for OTLP: every byte string offered to any of the protobuf unmarshalers. -/
+theorem C08_total_fixpoint_otlp (m : Nat) (b : Bytes) (v : Val) (hd : decode otlp otlpD m b = some v)
+    (hlen : (encode otlp m v).length < 2 ^ 63) :
+    decode otlp otlpD m (encode otlp m v) = some (canon otlp (.slots (otlp.slots m)) v) ∧
+    decode otlp otlpD m (encode otlp m (canon otlp (.slots (otlp.slots m)) v)) = some (canon otlp (.slots (otlp.slots m)) v) :=
+  (C08_total_fixpoint otlp otlpD _ C08_schema_wf C08_schema_rank m b v hd hlen).2
+
+
+/-! ## migration of the deprecated scope fields; export request / response wrappers -/
+
+/-- **`otlp.Migrate*` is idempotent** on every payload whose deprecated list slot holds a list (true of every decoder result
+and every API value) — for any schema in which fields 2 and 1000 of the resource message are different slots. -/
+theorem C08_migrate_idem (S : Schema) (m : Nat) (v : Val)
+    (h : ∀ f rest r, S.slots m = .one f :: rest → f.ty = .msg r → MigOk (S.slots r) (Val.get v 0)) :
+    migrate S m (migrate S m v) = migrate S m v := migrate_idem_aux S m v h
+
+/-- … and leaves a payload without deprecated data untouched. -/
+theorem C08_migrate_noop (S : Schema) (m : Nat) (v : Val)
+    (h : ∀ f rest r, S.slots m = .one f :: rest → f.ty = .msg r → ∀ rv, rv ∈ Val.toList (Val.get v 0) →
+      (∀ d, slotIdx (S.slots r) 1000 = some d → Val.get rv d = .nil) ∧
+      (∀ i, slotIdx (S.slots r) 2 = some i → chainy (Val.get rv i))) :
+    migrate S m v = v := migrate_noop_aux S m v h
+
+set_option maxRecDepth 100000 in
+/-- in the regenerated schema the regular (2) and the deprecated (1000) scope list are different slots of every message
+that has both -/
+theorem C08_migrate_slots_distinct :
+    otlp.msgs.all (fun msg => match slotIdx msg.slots 2, slotIdx msg.slots 1000 with
+      | some i, some d => i != d
+      | _, _ => true) = true := by decide +kernel
+
+/-- **Wrappers, protobuf.** For every root (the four `*Data` payloads, the four `Export*ServiceRequest`s — which run
+`otlp.Migrate*` after `Unmarshal` — and the four `Export*ServiceResponse`s): decoding what the wrapper marshalled returns the
+original, for every conforming payload without deprecated data (`migrate v = v`, see `C08_migrate_noop`). -/
+theorem C08_wrappers_pb (S : Schema) (D : List Val) (hwf : WF S D = true) (root : String) (m : Nat) (v : Val)
+    (hc : Conforms S m v) (hlen : (encode S m v).length < 2 ^ 63) (hm : migratesPb root = true → migrate S m v = v) :
+    decodeRoot S D root m (encode S m v) = some v := by
+  rw [decodeRoot, C08_pb_roundtrip S D hwf m v hc hlen]
+  cases hr : migratesPb root
+  · simp
+  · simp [hm hr]
+
+/-- **Wrappers, JSON.** The same through `MarshalJSON` / `UnmarshalJSON` of every root, up to NaN canonicalisation. -/
+theorem C08_wrappers_json (S : Schema) (D : List Val) (T : Txt) (hwf : WF S D = true) (hj : JWF S = true) (hT : TxtLaws T)
+    (root : String) (m : Nat) (v : Val) (hc : Conforms S m v) (hcov : jcov S m (.slots (S.slots m)) v = true)
+    (hm : migratesJson root = true → migrate S m (normV S (.slots (S.slots m)) v) = normV S (.slots (S.slots m)) v) :
+    fromJsonRoot S T D root m (toJson S T m v) = some (normV S (.slots (S.slots m)) v) := by
+  rw [fromJsonRoot, C08_json_roundtrip S D T hwf hj hT m v hc hcov]
+  cases hr : migratesJson root
+  · simp
+  · simp [hm hr]
+
+
+/-! ## the text codecs, concretely: only float64 ↔ text stays a hypothesis -/
+
+/-- **Decimal, hex and base64 are proved**: the model's concrete codecs (`strconv` decimal integers, `encoding/hex`,
+`encoding/base64` std with padding — the ones the driver runs against the real code) satisfy every law the JSON theorems
+use, for all naturals and all byte strings; what remains a hypothesis is the float64 text pair. -/
+theorem C08_txt_laws (ffmt : Nat → List Nat) (fparse : List Nat → Option Nat) (h : FloatLaws ffmt fparse) :
+    TxtLaws (mkTxtF ffmt fparse) where
+  undec_dec := undec_dec
+  dec_nosign := dec_nosign
+  fparse_ffmt := h.fparse_ffmt
+  fparse_nan := h.fparse_nan
+  fparse_pinf := h.fparse_pinf
+  fparse_ninf := h.fparse_ninf
+  unb64_b64 := b64dec_b64enc
+  unhex_hex := hexDec_hexEnc
+  hex_length := hexEnc_length
+  hex_noquote := hexEnc_noquote
+
+/-- JSON round trip for OTLP with the concrete codecs: the only assumption left is the float text law. -/
+theorem C08_json_roundtrip_otlp_concrete (ffmt : Nat → List Nat) (fparse : List Nat → Option Nat) (h : FloatLaws ffmt fparse)
+    (m : Nat) (v : Val) (hc : Conforms otlp m v) (hcov : jcov otlp m (.slots (otlp.slots m)) v = true) :
+    fromJson otlp (mkTxtF ffmt fparse) otlpD m (toJson otlp (mkTxtF ffmt fparse) m v)
+      = some (normV otlp (.slots (otlp.slots m)) v) :=
+  C08_json_roundtrip_otlp _ (C08_txt_laws ffmt fparse h) m v hc hcov
+
+/-- 64-bit integers at the extremes survive both spellings (what the seeded "read through float64" defect breaks) -/
+theorem C08_json_int64_extremes (S : Schema) (ffmt : Nat → List Nat) (fparse : List Nat → Option Nat) :
+    ∀ n ∈ [2 ^ 53 + 1, 2 ^ 63 - 1, 2 ^ 63, 2 ^ 64 - 1],
+      readLeaf S (mkTxtF ffmt fparse) .u64 (.num (decDigits n)) = some (.num n) ∧
+      readLeaf S (mkTxtF ffmt fparse) .i64 (.str (sdec (mkTxtF ffmt fparse) 64 n)) = some (.num n) := by
+  intro n hn
+  have hd : DecLaws (mkTxtF ffmt fparse) := ⟨undec_dec, dec_nosign⟩
+  have hlt : n < 2 ^ 64 := by
+    simp only [List.mem_cons, List.mem_nil_iff, or_false] at hn
+    rcases hn with h | h | h | h <;> subst h <;> decide
+  exact ⟨(C08_json_int64_value S _ hd n hlt).1, by simp [readLeaf, parseInt_sdec _ hd 64 n (by decide) hlt]⟩
+
+
+/-! ## malformed ids are rejected (never written past the destination) -/
+
+/-- **Wrong-length id ⇒ error.** A trace/span/profile id whose text (after the optional pair of literal quotes the reader
+strips) is non-empty and not exactly `2·n` characters — too long by any amount, too short, odd — is rejected by the id
+reader, whatever its characters; for every text codec. (`bytesid.go unmarshalJSON`: `len(dst) != hex.DecodedLen(nLen)`.) -/
+theorem C08_json_id_wrong_length (S : Schema) (T : Txt) (n : Nat) (b : List Nat)
+    (h0 : (stripQuotes b).isEmpty = false) (hl : (stripQuotes b).length ≠ 2 * n) :
+    readLeaf S T (.id n) (.str b) = none := by
+  simp [readLeaf, h0, hl]
+
+/-- … and so is the whole document: a member whose key selects an id field and whose value has the wrong length makes
+`fromJ` fail (no partial result, no out-of-range write), wherever it sits in the message. -/
+theorem C08_json_bad_id_rejected (S : Schema) (T : Txt) (D : List Val) (m : Nat) (acc : Val) (k b : List Nat) (tl : Json)
+    (hit : Hit) (n : Nat)
+    (hkey : (jsonKeysOf S m).any (fun s => str s == k) = true) (hfind : findKey (S.slots m) 0 k = some hit)
+    (hty : hit.f.ty = .id n) (halt : hit.alt = false) (hcard : hit.f.card = .req)
+    (h0 : (stripQuotes b).isEmpty = false) (hl : (stripQuotes b).length ≠ 2 * n) :
+    fromJ S T D m acc (.ocons k (.str b) tl) = none := by
+  rw [fromJ_step S T D m acc k _ tl hit hkey hfind]
+  simp [slotRead, hty, halt, hcard, C08_json_id_wrong_length S T n b h0 hl]
 
 /-! ## non-vacuity: a small schema using every slot discipline, a conforming value with extreme numerics -/
 def S0 : Schema := { msgs := [
